@@ -4,7 +4,8 @@ from lib.emit import emit_stream
 CHECK = Check(
     "C03",
     streams=[emit_stream("c03", drv="c03"),
-             # two units of this check's own (Gen/GenC03x.v), outside the sound fragment: the open finding nested_in_map_entry
+             # three units of this check's own (Gen/GenC03x.v): structs held by value as map entries with nested fields
+             # (finding nested_in_map_entry, fixed by 2f8b339; inside the sound fragment since)
              emit_stream("c03x", drv="c03x", unitsdrv="c03xunits"),
              # two units of this check's own (Gen/GenC03b.v), inside the sound fragment: an element of every integer and
              # float kind the shared quick units lack, for the boundary sweep
@@ -15,8 +16,10 @@ CHECK = Check(
           "pointer form, every other scalar family, decimal text, []byte) x {Set, SetWithBuffer}, through *T. Two lines per case: "
           "`set` (error + dump of the whole object; spec = the exact object when the path denotes an existing scalar/string/bytes "
           "element and the value converts) and `setframe` (the frame condition decided natively by the harness with reflect; "
-          "spec = frame=1 always). distinct = distinct input text, all non-trivial. Stream c03x: the same case shapes on two "
-          "own units map[string]Rec / struct{F map[int32]Rec} with Rec{N Pt; C int32} held by value (outside the sound fragment). "
+          "spec = frame=1 always). distinct = distinct input text, all non-trivial. Stream c03x: the same case shapes on three "
+          "own units map[string]Rec / struct{F map[int32]Rec} with Rec{N Pt; C int32} held by value, and map[int32]Rec2 with "
+          "Rec2{N Pt; P *Pt; L []Pt; M map[int32]Lf; S map[string]int32; C int32} held by value (nested struct, pointer, slice "
+          "and maps - nil, empty, populated - below the entry; entries in entries). "
           "Boundary sweep (tag bnd; Gen/GenC03.v bnd_block): per leaf kind one bounded pass, spread over the places where an "
           "element of the kind occurs, of decimal TEXT sources (string, *string, []byte, *[]byte; buffered and not) spelling "
           "kmin/kmax of the element's kind and of int64/uint64, their neighbours inside and outside the range, leading zeros, "
@@ -46,7 +49,7 @@ MANIFEST = {
     "text": ("Rocq model of the code emitted by writeNode in set mode (structural recursion on the node tree, threading the new "
              "value of what each Go variable designates and whether the emitted write-back is reached) with theorems by "
              "induction on the node: frame condition for all paths and values, set-then-get for resolving leaf paths, no panic; "
-             "refutations for the shapes that still lose updates; the same for HISTORIES of calls on one object (a call keeps the "
+             "a refutation for the emitter before the last generator fix (lost updates below nested fields of by-value map entries); the same for HISTORIES of calls on one object (a call keeps the "
              "object well-typed, so every call of a history meets the demand on the object the earlier calls left; on the "
              "buffer's side no sequence of buffered conversions rewrites a text handed out earlier). Correspondence: the extracted model predicts the whole object "
              "after every generated Set call and after every call of the generated histories (one shared ByteBuffer); the frame "
